@@ -346,9 +346,24 @@ class _Cells(object):
         return env[ast.unparse(e)]
 
 
+class _Positive(ast.NodeTransformer):
+    """opaque atoms in one polarity: `a is not b` is `not (a is b)`, likewise `not in` and a non-numeric `!=`"""
+
+    def visit_Compare(self, n):
+        self.generic_visit(n)
+        if len(n.ops) == 1 and isinstance(n.ops[0], (ast.IsNot, ast.NotIn, ast.NotEq)):
+            if isinstance(n.ops[0], ast.NotEq) and isinstance(n.comparators[0], ast.Constant) and isinstance(n.comparators[0].value, int) \
+                    and not isinstance(n.comparators[0].value, bool):
+                return n
+            pos = {ast.IsNot: ast.Is, ast.NotIn: ast.In, ast.NotEq: ast.Eq}[type(n.ops[0])]()
+            return ast.UnaryOp(op=ast.Not(), operand=ast.Compare(left=n.left, ops=[pos], comparators=n.comparators))
+        return n
+
+
 def _canon_ast(text_or_ast, negate=False):
     e = ast.parse(text_or_ast, mode='eval').body if isinstance(text_or_ast, str) else _copy(text_or_ast)
-    return ast.parse(_canon_text_of(e, negate), mode='eval').body
+    e = ast.parse(_canon_text_of(e, negate), mode='eval').body
+    return ast.fix_missing_locations(_Positive().visit(e))
 
 
 def equiv(a, b, domain=None):
@@ -476,6 +491,9 @@ def _ca(e):
             if lin is not None:
                 return _lin_text(sorted(lin[0].items()), lin[1])
         return '%s(%s)' % (type(e.op).__name__, _ca(e.operand))
+    if isinstance(e, ast.Call) and isinstance(e.func, ast.Name) and e.func.id in ('bytes', 'bytearray') and len(e.args) == 1 \
+            and isinstance(e.args[0], (ast.List, ast.Tuple)) and not e.keywords:
+        return 'bytes[%s]' % ','.join(_ca(x) for x in e.args[0].elts)
     if isinstance(e, ast.Call):
         args = [_ca(a) for a in e.args] + ['%s=%s' % (k.arg, _ca(k.value)) for k in e.keywords]
         return '%s(%s)' % (_ca(e.func) if not isinstance(e.func, ast.Name) else e.func.id, ','.join(args))
